@@ -60,4 +60,54 @@ def run (t : St) : List SEv → Except Err (St × Outs)
       | .error err => .error err
       | .ok (t2, o2) => .ok (t2, o1 ++ o2)
 
+/-! ### ticket ghosts for the history-level FIFO theorem (`sem_fifo`)
+
+Every request that had to queue gets a ticket = its rank among the queued requests of the whole history (`reqs[k]` = its
+issuer).  `tq` = the tickets of the requests that are in `ongoing_acquisitions_` now, kept parallel to `t.s.queue`
+(same list operations: push_back, pop_front, and the erase of `cancel()` at the position where `eraseS` erases);
+`granted` = (ticket, actor granted) of the grants that `release` made to queued requests, in the order they were made —
+the actor is read from the acquisition popped by the model's `Sem.release`; `touts` = tickets removed by their timeout. -/
+
+/-- the ticket-side twin of `eraseS`: drop the ticket at the position of the first acquisition of issuer `a` -/
+def eraseTicket (a : Aid) : List SAcq → List Nat → List Nat × Option Nat
+  | x :: xs, k :: ks => if x.issuer = a then (ks, some k) else ((k :: (eraseTicket a xs ks).1), (eraseTicket a xs ks).2)
+  | _, ks => (ks, none)
+
+structure GSt where
+  t : St
+  reqs : List Aid := []
+  tq : List Nat := []
+  granted : List (Nat × Aid) := []
+  touts : List Nat := []
+
+def GSt.init (c : Nat) : GSt := { t := St.init c }
+
+def gstep (g : GSt) (e : SEv) : Except Err (GSt × Outs) :=
+  match step g.t e with
+  | .error err => .error err
+  | .ok (t', o) =>
+    .ok ((match e with
+      | .acquire a _ =>
+        -- the request had to queue iff `ongoing_acquisitions_` grew
+        if g.t.s.queue.length < t'.s.queue.length then
+          { g with t := t', reqs := g.reqs ++ [a], tq := g.tq ++ [g.reqs.length] }
+        else { g with t := t' }
+      | .release _ =>
+        match g.t.s.release.2, g.tq with
+        | some acq, k :: ks => { g with t := t', tq := ks, granted := g.granted ++ [(k, acq.issuer)] }
+        | _, _ => { g with t := t' }
+      | .timeout a =>
+        { g with t := t', tq := (eraseTicket a g.t.s.queue g.tq).1,
+                 touts := g.touts ++ (eraseTicket a g.t.s.queue g.tq).2.toList }), o)
+
+def grun (g : GSt) : List SEv → Except Err (GSt × Outs)
+  | [] => .ok (g, [])
+  | e :: es =>
+    match gstep g e with
+    | .error err => .error err
+    | .ok (g1, o1) =>
+      match grun g1 es with
+      | .error err => .error err
+      | .ok (g2, o2) => .ok (g2, o1 ++ o2)
+
 end SgVerif.C05
